@@ -39,6 +39,7 @@ type C02Case struct {
 	Steps []C02Step `json:"steps"`
 	Plan  ReadPlan  `json:"plan"`
 	Ext   string    `json:"ext,omitempty"` // file mode: "", ".gz", ".xz"
+	Members int     `json:"members,omitempty"` // gzstream and file(.gz) modes: the text is compressed as this many gzip members (a compressor that works block by block, or files put together with cat)
 	Twin  bool      `json:"twin,omitempty"`  // multi mode: a second stream (the same alignments in reverse order) is parsed at the same time
 	Stale int       `json:"stale,omitempty"` // file modes: the output path already holds this many bytes left by an earlier run
 	// multi mode: the schedule
@@ -55,6 +56,31 @@ func (c02) ID() string       { return "C02" }
 func (c02) New() interface{} { return &C02Case{} }
 func (c02) Rule() string {
 	return "each run: an alignment of 1-10 rows whose length is drawn from the widths that straddle every writer line and block (10, 50, 60, 80, their neighbours and multiples) or at random, nucleotide or protein IUPAC residues in both cases with '-', '*', '?', names of 1-14 printable non-blank characters that the formats of the run can represent (<= 10 for strict Phylip; all-digit names included), and one of seven modes: single (writer -> simulated stream -> parser), chain (2-4 formats in a row), file (utils.OpenWriteFile -> real temp file, plain/.gz/.xz, fresh or already holding 1-120000 bytes of an earlier output -> utils.ReadAlign / GetReader), gzstream (gzip bytes through the simulated stream and GetReaderFromReader), auto (format detection), multifile (2-5 Phylip alignments of sizes on both sides of 4096 bytes written one after the other to one plain/.gz/.xz file and read back with ParseMultiAlignmentsAuto), multi (1-25 Phylip alignments in one stream through ParseMultiAlignmentsAuto with the parser goroutine, every read of the simulated file, the consumer and the close under the seeded scheduler; in 3 runs of 10 a second stream - the same alignments in reverse order - is parsed by another goroutine in the same schedule). Distinct = distinct (mode, formats and options, alignment shape, fragment plan or schedule hash); non-trivial = the alignment has at least 2 rows and 2 columns, or the stream holds at least 2 alignments."
+}
+
+// gzipMembers compresses the text as k gzip members, cut at line ends where there are any (RFC 1952: the content
+// of a file of several members is the concatenation of their contents).
+func gzipMembers(text string, k int) []byte {
+	if k < 1 {
+		k = 1
+	}
+	var zb bytes.Buffer
+	rest := text
+	for m := 0; m < k; m++ {
+		part := rest
+		if m < k-1 {
+			cut := len(rest) / (k - m)
+			if i := strings.IndexByte(rest[cut:], '\n'); i >= 0 {
+				cut += i + 1
+			}
+			part = rest[:cut]
+		}
+		rest = rest[len(part):]
+		zw := gzip.NewWriter(&zb)
+		zw.Write([]byte(part))
+		zw.Close()
+	}
+	return zb.Bytes()
 }
 
 // leaveStale puts the disk in the state an earlier run left it in: the output path exists and holds Stale bytes
@@ -198,6 +224,9 @@ func (c02) Gen(rs uint64, tier string, race bool) interface{} {
 	}
 	if c.Mode == "multi" {
 		c.Twin = r.Chance(0.3)
+	}
+	if c.Mode == "gzstream" || c.Mode == "file" {
+		c.Members = r.Pick(1, 1, 2, 3)
 	}
 	if c.Mode == "file" || c.Mode == "multifile" {
 		c.Ext = r.PickS("", "", ".gz", ".gz", ".gz", ".gz", ".gz", ".xz")
@@ -436,11 +465,11 @@ func (c02) Run(ctx *Ctx, ci interface{}) (o Outcome) {
 	case "gzstream":
 		s := c.Steps[0]
 		text := c02Write(orig, s)
-		var zb bytes.Buffer
-		zw := gzip.NewWriter(&zb)
-		zw.Write([]byte(text))
-		zw.Close()
-		f := newSimFile(zb.Bytes(), c.Plan)
+		zb := gzipMembers(text, c.Members)
+		if c.Members > 1 {
+			o.Add("gzip_streams_of_several_members", 1)
+		}
+		f := newSimFile(zb, c.Plan)
 		rd, err := utils.GetReaderFromReader(true, f)
 		if err != nil {
 			fail("gzstream:open-error", "GetReaderFromReader: %v", err)
@@ -463,15 +492,23 @@ func (c02) Run(ctx *Ctx, ci interface{}) (o Outcome) {
 		name := fmt.Sprintf("c02-%d%s", os.Getpid(), c.Ext)
 		defer os.Remove(name)
 		c.leaveStale(name, &o)
-		w, err := utils.OpenWriteFile(name)
-		if err != nil {
-			panic("harness: " + err.Error())
+		if c.Ext == ".gz" && c.Members > 1 {
+			// the file as another compliant compressor leaves it: several gzip members, read back by goalign
+			if err := os.WriteFile(name, gzipMembers(text, c.Members), 0644); err != nil {
+				panic("harness: " + err.Error())
+			}
+			o.Add("gzip_files_of_several_members", 1)
+		} else {
+			w, err := utils.OpenWriteFile(name)
+			if err != nil {
+				panic("harness: " + err.Error())
+			}
+			if _, err := w.WriteString(text); err != nil {
+				fail("file:write-error"+c.Ext, "WriteString: %v", err)
+				return
+			}
+			utils.CloseWriteFile(w, name)
 		}
-		if _, err := w.WriteString(text); err != nil {
-			fail("file:write-error"+c.Ext, "WriteString: %v", err)
-			return
-		}
-		utils.CloseWriteFile(w, name)
 		o.Add("file_ext_"+strings.TrimPrefix(c.Ext+".plain", "."), 1)
 		var got align.Alignment
 		if fc, ok := fmtConst[s.Format]; ok && s.Format != "phylip-strict" {
